@@ -57,6 +57,7 @@ def OP_SENDMSG : Nat := 9
 def OP_RECVMSG : Nat := 10
 def OP_ACCEPT : Nat := 13
 def OP_CONNECT : Nat := 16
+def OP_POLL_ADD : Nat := 6
 def OP_FALLOCATE : Nat := 17
 def OP_OPENAT : Nat := 18
 def OP_CLOSE : Nat := 19
@@ -183,6 +184,11 @@ structure Req where
   mem : Mem := {}
   deriving Repr, DecidableEq, Inhabited
 
+/-- `IORING_POLL_ADD_MULTI`. -/
+def IORING_POLL_ADD_MULTI : Nat := 1
+/-- `EPOLLIN | EPOLLHUP | EPOLLERR | EPOLLET | EPOLLEXCLUSIVE` (poll.rs:30-35). -/
+def POLLABLE_EVENTS : Nat := 1 ||| 16 ||| 8 ||| 2147483648 ||| 268435456
+
 /-! ### Operations and their arguments -/
 
 inductive OpKind where
@@ -191,7 +197,7 @@ inductive OpKind where
   | socket | bind | listen | connect | sockname
   | recv | recvp | mrecv | recvv | recvfrom | recvfromv
   | send | sendto | sendmsg | accept | maccept | getsockopt | setsockopt | shutdown
-  | waitid | sigrecv | todirect | tofd | pipe | madvise
+  | waitid | sigrecv | todirect | tofd | pipe | madvise | pollable
   deriving Repr, DecidableEq, Inhabited
 
 /-- Address type parameter `A: SocketAddress`. -/
@@ -487,6 +493,10 @@ def fill (op : OpKind) (a : Args) (k : FdKind) : Req :=
   -- src/io_uring/mem.rs:14-29 (AdviseOp)
   | .madvise => { sqe := { opcode := OP_MADVISE, fd := -1, addr := .num a.address, len := a.len,
                             opFlags := a.flags } }
+  -- src/io_uring/poll.rs:26-38 (PollableOp, behind `Ring::pollable`): a multishot poll of
+  -- ANOTHER ring's descriptor (`a.fd`) through this queue
+  | .pollable => { sqe := { opcode := OP_POLL_ADD, fd := a.fd, len := IORING_POLL_ADD_MULTI,
+                             opFlags := POLLABLE_EVENTS, userData := .multi } }
 
 /-! ### System calls -/
 
@@ -834,6 +844,14 @@ def abi (op : OpKind) (r : Req) : Option Syscall :=
         ∧ s.fileIndex = 0 then
       some ⟨"madvise", [("addr", .v s.addr), ("len", .n s.len), ("advice", .n s.opFlags)]⟩
     else none
+  -- io_uring_prep_poll_multishot(fd, poll_mask); io_poll_add_prep rejects buf_index/off/addr
+  -- and any `len` bit other than IORING_POLL_ADD_MULTI; the events are `poll32_events`.
+  -- (a10 additionally needs the multishot tag in `user_data` iff MULTI is asked for.)
+  | .pollable =>
+    if s.opcode = OP_POLL_ADD ∧ s.flags = 0 ∧ s.off = .num 0 ∧ s.addr = .num 0 ∧ s.bufIndex = .idx 0
+        ∧ s.len ≤ IORING_POLL_ADD_MULTI ∧ (s.userData = .multi ↔ s.len = IORING_POLL_ADD_MULTI) then
+      some ⟨"poll", [("fd", .i s.fd), ("events", .n s.opFlags), ("multi", .n s.len)]⟩
+    else none
 
 /-- Descriptor argument of the POSIX call: number + whether it is a direct one. -/
 def pfd (a : Args) (k : FdKind) : List (String × Arg) :=
@@ -937,6 +955,9 @@ def posix (op : OpKind) (a : Args) (k : FdKind) : Syscall :=
   | .pipe => ⟨"pipe2", [("fds", .v (.ptr .state 0)), ("flags", .n (a.flags ||| cloexec a.ckind)),
       ("slot", .n (slotOf a.ckind))]⟩
   | .madvise => ⟨"madvise", [("addr", .v (.num a.address)), ("len", .n a.len), ("advice", .n a.flags)]⟩
+  -- wait, again and again, until the other ring has a completion to read (or hung up / failed):
+  -- edge triggered, one waiter woken
+  | .pollable => ⟨"poll", [("fd", .i a.fd), ("events", .n POLLABLE_EVENTS), ("multi", .n 1)]⟩
 
 
 /-! ### Builder methods
@@ -1360,11 +1381,13 @@ def opOfName (s : String) : Option OpKind :=
    ("recvfromv", .recvfromv), ("send", .send), ("sendto", .sendto), ("sendmsg", .sendmsg),
    ("accept", .accept), ("maccept", .maccept), ("getsockopt", .getsockopt),
    ("setsockopt", .setsockopt), ("shutdown", .shutdown), ("waitid", .waitid), ("sigrecv", .sigrecv),
-   ("todirect", .todirect), ("tofd", .tofd), ("pipe", .pipe), ("madvise", .madvise)].lookup s
+   ("todirect", .todirect), ("tofd", .tofd), ("pipe", .pipe), ("madvise", .madvise),
+   ("pollable", .pollable)].lookup s
 
 /-- Operations that run on a `SubmissionQueue` (no `AsyncFd`, no `use_flags`). -/
 def OpKind.onQueue : OpKind → Bool
-  | .close | .dropfd | .openat | .mkdir | .rename | .unlink | .socket | .waitid | .pipe | .madvise => true
+  | .close | .dropfd | .openat | .mkdir | .rename | .unlink | .socket | .waitid | .pipe | .madvise
+  | .pollable => true
   | _ => false
 
 /-- Values of a `new_flag!` type with `impl BitOr`: a non-empty union of its
@@ -1429,6 +1452,8 @@ def decodeOk (st0 : St) (op : OpKind) (a : Args) (k : FdKind) (toks : List Strin
     let st := fromRaw n k
     if !newFdOk st0 k n then none
     else some s!"ok fd={fdOf st} kind={if kindOf st = .direct then "d" else "f"}"
+  -- poll.rs:39: the returned event mask is not looked at
+  | .pollable => some "ok"
   | .accept => do
     let st := fromRaw n k
     if !newFdOk st0 k n then none
@@ -1743,6 +1768,9 @@ def parseOp (st : St) (name : String) (toks : List String) :
     let ck ← findKv "ck" toks
     let c ← if ck == "none" then some FdKind.file else parseKind ck
     pure (op, k, { base with flags := f, ckind := c }, [])
+  | .pollable => do
+    let p ← findBounded "pfd" toks 2147483648
+    pure (op, k, { base with fd := p }, [])
   | .madvise => do
     let ad ← findBounded "addr" toks U64
     let len ← findBounded "len" toks U32
